@@ -1,2 +1,3 @@
 //! Code shared by several check binaries.
+pub mod kitchen;
 pub mod sources;
